@@ -143,8 +143,9 @@ func tokenize(expr string) ([]string, error) {
 			continue
 		}
 
-		// Handle multi-character operators
-		if i+1 < len(expr) {
+		// Handle multi-character operators. Word operators (IS, OR, ...) are read as
+		// words below, so that identifiers such as is_null or order stay whole.
+		if i+1 < len(expr) && !isLetter(expr[i]) {
 			twoChar := expr[i : i+2]
 			if isOperator(twoChar) {
 				tokens = append(tokens, twoChar)
